@@ -255,7 +255,7 @@ fn run_once(rc: RunCase, port: u16, chunk_seed: u64) -> String {
         drop(keep_tx);
         let _ = res_tx.send(line);
     });
-    match res_rx.recv_timeout(Duration::from_secs(20)) {
+    match res_rx.recv_timeout(Duration::from_secs(10)) {
         Ok(s) => s,
         Err(_) => {
             // the run did not end: get the thread out of the loop (a stop line on its own) so that it does not
@@ -345,7 +345,7 @@ impl Mode for RunMode {
         let mut why = String::new();
         let mut dom = true;
         if outcome == "hang" {
-            why = "the run did not end (no result within 20 s)".into();
+            why = "the run did not end (no result within 10 s)".into();
         } else if outcome == "panic" {
             // the only panic the model of the code has is the instruction fetch from unmapped memory (C15's known
             // finding); a guest that jumps there is outside what C13 / C18 state
